@@ -23,6 +23,8 @@ mod gen_names;
 mod c05_digits;
 #[path = "../c11_expr.rs"]
 mod c11_expr;
+#[path = "../c16_subst.rs"]
+mod c16_subst;
 
 fn main() {
     let args: Vec<String> = std::env::args().collect();
@@ -49,6 +51,7 @@ fn main() {
         "c07" => gen_names::run(&opts),
         "c05" => c05_digits::run(&opts),
         "c11" => c11_expr::run(&opts),
+        "c16" => c16_subst::run(&opts),
         "c11-one" => c11_expr::one(&opts),
         "c05-one" => c05_digits::one(&opts),
         "c07-one" => gen_names::one(&opts),
